@@ -161,19 +161,25 @@ def connect(remote: tuple[str, int],
     :return: SoupClientSessionSync
     """
     sync_executor = common.SyncExecutor(f'soup-connect-{user}')
-    try:
-        async_session = sync_executor.execute(
-            connect_async(
-                remote,
-                user,
-                passwd,
-                session_id,
-                sequence,
-                client_heartbeat_interval=client_heartbeat_interval,
-                server_heartbeat_interval=server_heartbeat_interval
-            )
+
+    async def connect_and_wrap() -> SoupClientSessionSync:
+        async_session = await connect_async(
+            remote,
+            user,
+            passwd,
+            session_id,
+            sequence,
+            client_heartbeat_interval=client_heartbeat_interval,
+            server_heartbeat_interval=server_heartbeat_interval
         )
+        # Wrap on the loop thread, in the very step in which the login returned: the wrapper installs
+        # the close callback that stops the executor and releases close()/logout(). Built on the
+        # caller's thread it could come too late - a peer disconnect processed in between closed the
+        # session without that callback, and a later close() waited forever.
         return SoupClientSessionSync(async_session, sync_executor)
+
+    try:
+        return sync_executor.execute(connect_and_wrap())
     except Exception as exc:
         sync_executor.stop()
         raise exc
